@@ -143,13 +143,37 @@ class Gen:
                 self.var_defs["--k2"] = ("var", "--k1")
                 body.append({"t": "rule", "sel": ".cy%d" % self.n, "text": ("var", rnd.choice(["--k2", "--k1"])), "bg": None,
                              "extras": [], "imp": False, "dup": False, "comment": False})
+        # custom property names are case-sensitive: a twin differing only by case is a different property
+        twin = None
+        if rnd.random() < 0.25:
+            base = [n for n in self.var_defs if n.startswith("--c")]
+            if base:
+                b0 = rnd.choice(base)
+                twin = "--C" + b0[3:]
+                self.var_defs[twin] = ("lit", rnd.choice(["#000000", "#ffffff", "#123456", "#fedcba"]))
+                self.n += 1
+                body.append({"t": "rule", "sel": ".tw%d" % self.n, "text": ("var", rnd.choice([twin, b0])), "bg": ("lit", rnd.choice(["#ffffff", "#101010"])),
+                             "extras": [], "imp": False, "dup": False, "comment": False})
         rootsel = rnd.choice([":root", "html"])
-        root = {"t": "vars", "sel": rootsel, "defs": list(self.var_defs.items()), "color": None}
+        all_defs = list(self.var_defs.items())
+        second = None
+        if len(all_defs) >= 2 and rnd.random() < 0.3:
+            # the same selector twice: custom properties split over two blocks
+            cut = rnd.randrange(1, len(all_defs))
+            second = {"t": "vars", "sel": rootsel, "defs": all_defs[cut:], "color": None}
+            all_defs = all_defs[:cut]
+        root = {"t": "vars", "sel": rootsel, "defs": all_defs, "color": None}
         if rnd.random() < self.f_known * 0.5:      # F4 class: literal color directly in the :root/html rule
             bg = (255, 255, 255)
             root["color"] = lit(self.colour_for(rnd.choice(["fix", "ok"]), bg), rnd, ["hex6", "rgbfn"])
         pos = rnd.choice([0, 0, len(body)]) if rnd.random() < 0.8 else rnd.randrange(len(body) + 1)
         nodes = body[:pos] + [root] + body[pos:]
+        if second is not None:
+            nodes.insert(rnd.randrange(len(nodes) + 1), second)
+        if rnd.random() < 0.15:
+            # a :root block nested in an at-rule (its properties are not global; the tool must not confuse it with the top-level one)
+            nodes.insert(rnd.randrange(len(nodes) + 1), {"t": "at", "kw": "media", "prelude": "print", "kids": [
+                {"t": "vars", "sel": rootsel, "defs": [("--printonly", ("lit", "#000000"))], "color": None}]})
         if self.carry:
             nodes = self.sprinkle(nodes)
         return nodes
@@ -527,7 +551,7 @@ def flatten_sheet(css_text, ids):
         for d in lst:
             if d.type == "declaration":
                 items.append({"k": "decl", "a": ids(("name", d.name)), "b": ids(("val", norm_tokens(d.value))), "imp": bool(d.important),
-                              "rule": rule_id, "name": d.lower_name if d.lower_name in ("color",) or d.name.startswith("--") else ""})
+                              "rule": rule_id, "name": d.name if d.name.startswith("--") else ("color" if d.name == "color" else "")})
             elif d.type == "comment":
                 items.append({"k": "comment", "a": ids(("comment", d.value)), "b": 0, "imp": False, "rule": rule_id, "name": ""})
             elif d.type == "at-rule":
